@@ -4,18 +4,19 @@
 enum { P_INTERNAL = 0, P_CALENDAR, P_KEY, P_PUBFILE, P_USERPUB, P_GENERAL, P_NPOL };
 static const char *PNAME[P_NPOL] = {"internal", "calendar", "key", "pubfile", "userpub", "general"};
 
-/* signature variants: 0 two chains, first level correction 3; 1 lc 0; 2 lc 1; 3 lc 7; 4 single link lc 254; 5 legacy RFC3161 form */
-#define NSIGV 6
+/* signature variants: 0 two chains, first level correction 3; 1 lc 0; 2 lc 1; 3 lc 7; 4 single link lc 254; 5 legacy RFC3161 form (lc 0);
+ * 6 legacy RFC3161 form whose first link carries level correction 2 (level must still be 0) */
+#define NSIGV 7
 static void make_sig(rsig *s, int variant, int form, const rk_cert *signer) {
 	rs_params p;
-	static const unsigned LC[] = {3, 0, 1, 7, 254, 0};
+	static const unsigned LC[] = {3, 0, 1, 7, 254, 0, 2};
 	rs_default_params(&p);
 	if (variant == 4) { p.nchains = 1; p.nlinks[0] = 1; p.link_desc[0][0] = 1u | (LC[4] << 3); }
 	else {
 		p.nchains = 2; p.nlinks[0] = 2; p.nlinks[1] = 1; p.chain_alg[1] = RH_SHA256;
 		p.link_desc[0][0] = 0u | (LC[variant] << 3); p.link_desc[0][1] = 1 | (1 << 1); p.link_desc[1][0] = 1;
 	}
-	p.aggr_time = FX_T0; p.pub_time = FX_P0; p.tail = form; p.with_rfc3161 = variant == 5;
+	p.aggr_time = FX_T0; p.pub_time = FX_P0; p.tail = form; p.with_rfc3161 = variant >= 5;
 	rs_build(s, &p);
 	if (form == 3 && signer) rk_sign_auth_record(s, signer);
 }
@@ -133,6 +134,21 @@ static void verify_all(world_t *w, const unsigned char *imprint, size_t n, int h
 		rc = KSI_Signature_verifyWithPolicy(w->sig, h, level, w->policy, &w->vc);
 		vf_count("impl_calls", 1);
 		judge(w, "verifyWithPolicy+ctx", exp, rc, 0, 0, 0, detail);
+		/* (2b) the same helper when the caller's context already carries the signature's own hash and level 0 (e.g. a
+		 * context reused from an earlier verification): the explicitly supplied hash / level must still decide */
+		if (h != NULL || level != 0) {
+			const unsigned char *own; size_t ol;
+			KSI_DataHash *oh;
+			rs_document_hash(&w->model, &own, &ol);
+			oh = mk_hash(w->ctx, own, ol);
+			w->vc.documentHash = oh; w->vc.docAggrLevel = 0;
+			rc = KSI_Signature_verifyWithPolicy(w->sig, h, level, w->policy, &w->vc);
+			vf_count("impl_calls", 1);
+			/* with no explicit hash the context's (genuine) hash applies: only the level decides */
+			judge(w, "verifyWithPolicy+ctx-own-hash", h != NULL ? exp : expected(w, 0, 1, level), rc, 0, 0, 0, detail);
+			w->vc.documentHash = NULL;
+			KSI_DataHash_free(oh);
+		}
 		/* (3) helper without a context: only policies that need no anchor from the caller */
 		if (w->pol == P_INTERNAL) {
 			rc = KSI_Signature_verifyWithPolicy(w->sig, h, level, w->policy, NULL);
@@ -147,7 +163,7 @@ static void run(void) {
 	int pol, variant;
 	for (pol = 0; pol < P_NPOL; pol++) for (variant = 0; variant < NSIGV; variant++) {
 		int part;
-		if (!VF_THOROUGH && !(variant == 0 || variant == 5 || (variant == 4 && pol == P_INTERNAL) || (variant == 2 && pol == P_KEY))) continue;
+		if (!VF_THOROUGH && !(variant == 0 || variant == 5 || (variant == 6 && (pol == P_INTERNAL || pol == P_GENERAL)) || (variant == 4 && pol == P_INTERNAL) || (variant == 2 && pol == P_KEY))) continue;
 		for (part = 0; part < 3; part++) {
 			world_t w;
 			const unsigned char *dh;
